@@ -183,24 +183,24 @@ theorem payloadField_ok (d pre post field : Bytes) (hd : d = pre ++ field ++ pos
     rw [hd, List.append_assoc, List.drop_left, Nat.add_sub_cancel_left, List.take_left]
 
 /-- the 56-byte header `Spec.buildChallenge` writes -/
-def chalHeader (flags : UInt32) (sc rs ver : Bytes) (tnLen tnOff tiLen tiOff : Nat) : Bytes :=
-  signature ++ natLe 4 2 ++ natLe 2 tnLen ++ natLe 2 tnLen ++ natLe 4 tnOff ++ natLe 4 flags.toNat ++ sc ++ rs ++
-  natLe 2 tiLen ++ natLe 2 tiLen ++ natLe 4 tiOff ++ ver
+def chalHeader (flags : UInt32) (sc rs ver : Bytes) (tnLen tnOff tiLen tiOff tnMax tiMax : Nat) : Bytes :=
+  signature ++ natLe 4 2 ++ natLe 2 tnLen ++ natLe 2 tnMax ++ natLe 4 tnOff ++ natLe 4 flags.toNat ++ sc ++ rs ++
+  natLe 2 tiLen ++ natLe 2 tiMax ++ natLe 4 tiOff ++ ver
 
 theorem chalHeader_eq (flags : UInt32) (s0 s1 s2 s3 s4 s5 s6 s7 r0 r1 r2 r3 r4 r5 r6 r7 v0 v1 v2 v3 v4 v5 v6 v7 : UInt8)
-    (a b c e : Nat) :
-    chalHeader flags [s0,s1,s2,s3,s4,s5,s6,s7] [r0,r1,r2,r3,r4,r5,r6,r7] [v0,v1,v2,v3,v4,v5,v6,v7] a b c e =
+    (a b c e am cm : Nat) :
+    chalHeader flags [s0,s1,s2,s3,s4,s5,s6,s7] [r0,r1,r2,r3,r4,r5,r6,r7] [v0,v1,v2,v3,v4,v5,v6,v7] a b c e am cm =
       [78, 84, 76, 77, 83, 83, 80, 0, UInt8.ofNat (2 % 256), UInt8.ofNat (2 / 256 % 256),
          UInt8.ofNat (2 / 256 / 256 % 256), UInt8.ofNat (2 / 256 / 256 / 256 % 256),
          UInt8.ofNat (a % 256), UInt8.ofNat (a / 256 % 256),
-         UInt8.ofNat (a % 256), UInt8.ofNat (a / 256 % 256),
+         UInt8.ofNat (am % 256), UInt8.ofNat (am / 256 % 256),
          UInt8.ofNat (b % 256), UInt8.ofNat (b / 256 % 256),
          UInt8.ofNat (b / 256 / 256 % 256), UInt8.ofNat (b / 256 / 256 / 256 % 256),
          UInt8.ofNat (flags.toNat % 256), UInt8.ofNat (flags.toNat / 256 % 256),
          UInt8.ofNat (flags.toNat / 256 / 256 % 256), UInt8.ofNat (flags.toNat / 256 / 256 / 256 % 256),
          s0,s1,s2,s3,s4,s5,s6,s7, r0,r1,r2,r3,r4,r5,r6,r7,
          UInt8.ofNat (c % 256), UInt8.ofNat (c / 256 % 256),
-         UInt8.ofNat (c % 256), UInt8.ofNat (c / 256 % 256),
+         UInt8.ofNat (cm % 256), UInt8.ofNat (cm / 256 % 256),
          UInt8.ofNat (e % 256), UInt8.ofNat (e / 256 % 256),
          UInt8.ofNat (e / 256 / 256 % 256), UInt8.ofNat (e / 256 / 256 / 256 % 256),
          v0,v1,v2,v3,v4,v5,v6,v7] := rfl
